@@ -82,6 +82,7 @@ class Observer:
         self.commit_step: Dict[Tuple[int, int], int] = {}
         self.n_sql_before = 0
         self.state: Dict[str, Any] = {}
+        self.insert_step: Dict[Tuple[int, int], int] = {}
 
     def snapshot(self) -> View:
         T = self.w.db.tables
@@ -97,6 +98,9 @@ class Observer:
         self.ans = ans
         self.step += 1
         self.history.append((op, ans))
+        for k in self.cur.jobs:
+            if k not in self.insert_step:
+                self.insert_step[k] = self.step
         ws = op.split()
         if ws[0] in ('cancel', 'delete') and ans.startswith('ok'):
             b = int(ws[1])
@@ -114,9 +118,16 @@ class Observer:
         SELECTs returned: a job whose job group is in state 'running' — or for an attempt that is already recorded (follow-up,
         duplicated or late message).  Histories (and shrunk witnesses) must respect that, otherwise they show nothing about the service."""
         ws = op.split()
+        v = self.cur
+        if ws[0] == 'complete' and ws[3] == 'N':
+            # the canceller's (and the scheduler's mark_job_errored) form: issued for jobs of running job groups only
+            job = v.jobs.get((int(ws[1]), int(ws[2])))
+            if job is None:
+                return True
+            g = v.groups.get((job['batch_id'], job['job_group_id']))
+            return bool(g and g['state'] == 'running')
         if ws[0] not in ('schedule', 'creating', 'started'):
             return True
-        v = self.cur
         b, j, a = int(ws[1]), int(ws[2]), f'att{ws[3]}'
         job = v.jobs.get((b, j))
         if job is None:
@@ -141,6 +152,22 @@ class Observer:
         v = self.cur
         return [j for j in v.jobs.values() if not v.committed(j['batch_id'], j['update_id']) and v.parents.get((j['batch_id'], j['job_id']))
                 and j['state'] != 'Pending']
+
+    def parent_inserted_after_child_committed(self) -> bool:
+        """a job whose update was committed while one of its parents did not exist yet (the parent row arrived later)"""
+        v = self.cur
+        for (b, j), ps in v.parents.items():
+            job = v.jobs.get((b, j))
+            if job is None:
+                continue
+            cs = self.commit_step.get((b, job['update_id']))
+            if cs is None:
+                continue
+            for p in ps:
+                ins = self.insert_step.get((b, p))
+                if ins is not None and ins > cs:
+                    return True
+        return False
 
     def committed_after_cancel(self) -> bool:
         v = self.cur
@@ -167,6 +194,8 @@ def _name_class(obs: Observer, default: str) -> str:
         return 'ready-job-of-uncommitted-update-scheduled-in-running-group'
     if obs.activated_uncommitted_children():
         return 'complete-parent-while-child-update-uncommitted'
+    if obs.parent_inserted_after_child_committed():
+        return 'parent-inserted-after-child-update-committed'
     if obs.committed_after_cancel():
         return 'commit-after-cancel-of-ancestor-group'
     return default
@@ -394,7 +423,7 @@ def c04(obs: Observer):
                 cls = 'commit-resets-job-of-late-committed-update' if obs.op.startswith('commit') else f'terminal-not-absorbing:{a}->{b}'
                 return (cls, f'job {k} was {a} (terminal) and is now {b}')
         elif b not in ALLOWED[a]:
-            cls = 'commit-resets-job-of-late-committed-update' if obs.op.startswith('commit') else f'illegal-transition:{a}->{b}'
+            cls = 'commit-resets-job-of-late-committed-update' if obs.op.startswith('commit') else _name_class(obs, f'illegal-transition:{a}->{b}')
             return (cls, f'job {k} moved {a} -> {b}')
     for k in p.jobs:
         if k not in v.jobs:
@@ -750,4 +779,148 @@ def c10(obs: Observer):
         mem = obs.w.instances.get(name)
         if mem is not None and mem.state in ('pending', 'active', 'inactive') and mem.state == inst['state'] and mem.free_cores_mcpu != free:
             return ('in-memory-mirror-differs:' + inst['state'], f'Instance {name} in memory has free_cores_mcpu = {mem.free_cores_mcpu}, the database {free}')
+    return None
+
+
+# ---------------------------------------------------------------------------------------------------------------
+# C41  uncommitted updates have no effect
+
+POOLS = ('standard', 'highcpu', 'highmem')
+
+
+def scheduler_visible(w) -> List[Tuple[int, int]]:
+    """(batch, job) pairs returned by the REAL scheduler SELECTs (pool.py: schedule_loop_body.user_runnable_jobs; job_private.py:
+    create_instances_loop_body.user_runnable_jobs), LIMITs as in the source, run on the current tables"""
+    from .world import sql_literal
+    repo = w.repo
+    q_groups = sql_literal(repo, 'driver/instance_collection/pool.py', 'ORDER BY job_groups.batch_id, job_groups.job_group_id;')
+    q_ar = sql_literal(repo, 'driver/instance_collection/pool.py', "always_run = 1\nGROUP BY jobs.job_id, jobs.batch_id")
+    q_nar = sql_literal(repo, 'driver/instance_collection/pool.py', "always_run = 0 AND cancelled = 0\nGROUP BY jobs.batch_id, inst_coll")
+    jp_groups = sql_literal(repo, 'driver/instance_collection/job_private.py', "WHERE job_groups.user = %s AND job_groups.`state` = 'running';")
+    jp_ar = sql_literal(repo, 'driver/instance_collection/job_private.py', 'always_run = 1 AND jobs.inst_coll = %s')
+    jp_nar = sql_literal(repo, 'driver/instance_collection/job_private.py', 'always_run = 0 AND jobs.inst_coll = %s AND cancelled = 0')
+    out = set()
+    users = sorted({r['user'] for r in w.db.tables['batches']})
+    for u in users:
+        for g in w.query(q_groups, (u,)):
+            for ic in POOLS:
+                for r in w.query(q_ar, (g['batch_id'], g['job_group_id'], ic)):
+                    out.add((g['batch_id'], r['job_id']))
+                if not g['cancelled']:
+                    for r in w.query(q_nar, (g['batch_id'], g['job_group_id'], ic)):
+                        out.add((g['batch_id'], r['job_id']))
+        for g in w.query(jp_groups, (u,)):
+            for r in w.query(jp_ar, (g['batch_id'], g['job_group_id'], 'job-private', 300)):
+                out.add((r['batch_id'], r['job_id']))
+            if not g['cancelled']:
+                for r in w.query(jp_nar, (g['batch_id'], g['job_group_id'], 'job-private', 300)):
+                    out.add((r['batch_id'], r['job_id']))
+    return sorted(out)
+
+
+def c41(obs: Observer):
+    v = obs.cur
+    obs.state.setdefault('views', []).append(v)
+    vis = scheduler_visible(obs.w)
+    if vis:
+        obs.tag('scheduler-sees-jobs')
+    for (b, j) in vis:
+        job = v.jobs[(b, j)]
+        if not v.committed(b, job['update_id']):
+            cls = 'complete-parent-while-child-update-uncommitted' if v.parents.get((b, j)) else \
+                'ready-job-of-uncommitted-update-in-running-group'
+            return (cls, f'the scheduler\'s SELECT returns job {(b, j)} of update {job["update_id"]}, which is not committed')
+    if any(not u['committed'] for u in v.updates.values()) and v.jobs:
+        obs.tag('uncommitted-update-present')
+    return None
+
+
+def _restricted(v: View, b: int, jr: range, gr: range):
+    gr = range(0)          # the update's job groups are kept in both runs
+    jobs = {k: (j['state'], j['cancelled'], j['n_pending_parents'], j['attempt_id']) for k, j in v.jobs.items()
+            if not (k[0] == b and k[1] in jr)}
+    groups = {}
+    for k, g in v.groups.items():
+        if k[0] == b and k[1] in gr:
+            continue
+        t = v.tallies.get(k)
+        groups[k] = (g['state'], g['n_jobs'], (t['n_completed'], t['n_succeeded'], t['n_failed'], t['n_cancelled']) if t else None)
+    batches = {k: (x['state'], x['n_jobs'], x['deleted']) for k, x in v.batches.items()}
+    return {'jobs': jobs, 'groups': groups, 'batches': batches, 'user counters': stored_user(v),
+            'cancel marks': sorted(x for x in v.cancelled if not (x[0] == b and x[1] in gr))}
+
+
+def _belongs(op: str, b: int, u: int, jr: range, gr: range) -> Optional[str]:
+    """None = keep; '' = drop; other = rewritten op (heartbeat with the update's attempts removed)"""
+    ws = op.split()
+    k = ws[0]
+    # job groups are kept: group ids must be submitted in sequence, so the groups of later updates can only be created after them
+    if k == 'insertJobs' and int(ws[1]) == b and int(ws[2]) == u:
+        return ''
+    if k in ('schedule', 'creating', 'started', 'complete', 'unschedule', 'addResources') and int(ws[1]) == b and int(ws[2]) in jr:
+        return ''
+    if k == 'heartbeat':
+        keep = [t for t in ws[3:] if not (int(t.split(':')[0]) == b and int(t.split(':')[1]) in jr)]
+        if len(keep) != len(ws) - 3:
+            return ' '.join(ws[:3] + keep)
+    return None
+
+
+def _referenced(history, b: int, u: int, jr: range, gr: range) -> bool:
+    """does a request of ANOTHER update name a job or group of update u (a parent job, a parent group, a job's group)?  Then the
+    client itself built on the uncommitted update and erasing it changes what the client asked for."""
+    for op, _ in history:
+        ws = op.split()
+        if ws[0] == 'insertJobs' and int(ws[1]) == b and int(ws[2]) != u:
+            for t in ws[4:]:
+                f = t.split(';')
+                if any(int(x) in jr for x in f[1].split(',') if x):
+                    return True
+    return False
+
+
+def c41_final(obs: Observer):
+    """erase the content of every update that was never committed and compare what the rest of the service can see"""
+    from .world import World
+    views: List[View] = obs.state.get('views', [])
+    if not views:
+        return None
+    vend = obs.cur
+    never = [(k, u) for k, u in vend.updates.items() if not u['committed'] and
+             any(j['batch_id'] == k[0] and j['update_id'] == k[1] for j in vend.jobs.values())]
+    for (b, u), urow in never[:2]:
+        jr = range(urow['start_job_id'], urow['start_job_id'] + urow['n_jobs'])
+        gr = range(urow['start_job_group_id'], urow['start_job_group_id'] + urow['n_job_groups'])
+        if _referenced(obs.history, b, u, jr, gr):
+            obs.tag('erasure-skipped:later-request-refers-to-the-update')
+            continue
+        obs.tag('erasure-compared')
+        w2 = World(0, obs.w.repo)
+        try:
+            erased_sched = False
+            for i, (op, ans) in enumerate(obs.history):
+                r = _belongs(op, b, u, jr, gr)
+                if r == '':
+                    if op.split()[0] in ('schedule', 'started', 'creating') and ans == 'ok 0':
+                        erased_sched = True
+                    continue
+                op2 = op if r is None else r
+                w2.apply(op2)
+                T = w2.db.tables
+                v2 = View({n: [dict(x) for x in T[n]] for n in TABLES})
+                a, c = _restricted(views[i], b, jr, gr), _restricted(v2, b, jr, gr)
+                if a != c:
+                    part = next(k for k in a if a[k] != c[k])
+                    key = next((k for k in set(a[part]) | set(c[part]) if a[part].get(k) != c[part].get(k)), None) \
+                        if isinstance(a[part], dict) else None
+                    ws = op.split()
+                    cls = 'uncommitted-update-changes-' + part.replace(' ', '-')
+                    if ws[0] == 'complete' and any(ch in jr for ch in views[i].children.get((b, int(ws[2])), [])):
+                        cls = 'complete-parent-while-child-update-uncommitted'
+                    elif erased_sched:
+                        cls = 'ready-job-of-uncommitted-update-in-running-group'
+                    return (cls, f'update {u} of batch {b} is never committed, yet after `{op}` the {part} differ from the run without its content: '
+                                 f'{key}: with = {a[part].get(key) if key is not None else a[part]}, without = {c[part].get(key) if key is not None else c[part]}')
+        finally:
+            w2.close()
     return None
